@@ -4,12 +4,13 @@ Leg D: spec/Output/Out.tla (property layer: PrefixInv, OneHeader, NoEarlyEnd, Co
        spec/Output/OutImpl.tla (mechanism: stream-buffer chain, setbuf/overflow/xsputn, connection::write,
        nonblocking_write + pending_output_, async_write re-arming, format_output of HTTP / SCGI / FastCGI,
        adversarial socket) - TLC explores every application program of bounded length x every accept-prefix /
-       would-block schedule and checks the Out invariants and the step refinement on the mapped variables.
+       would-block schedule and checks the Out invariants on the mapped variables (decoded by a protocol decoder
+       written in TLA+); *_asis / *_mut configurations must produce counterexamples (self-test).
 Leg B: harness/output/out_drv.cpp drives the real front-ends of a real cppcms::service through
        acceptor::accept(fd); writev() defined in the harness imposes the schedule; an independent decoder
        de-frames / inflates what the peer received; every execution must be a behaviour of Out (OutTrace.tla).
 """
-import os, re, json, copy, threading, concurrent.futures
+import os, re, json, threading, concurrent.futures
 
 import outplan
 
@@ -100,8 +101,8 @@ def run(ctx):
                 if sig not in seen_sig:
                     seen_sig[sig] = 1
                     if len(seen_sig) <= 12:
-                        ctx.violation(sig, "response never completed although the application finished, the event loop is idle and the socket is "
-                                      "writable (Complete): %s" % brief(h["reset"]), save_replay(ctx, h, len(seen_sig)))
+                        ctx.violation(sig, "response never completed: the server has released the request (its context is gone), no write is in "
+                                      "flight and nothing more arrives on a drained socket (Complete): %s" % brief(h["reset"]), save_replay(ctx, h, len(seen_sig)))
             elif len(ctx.undecided) < 20:
                 ctx.undecided.append("harness timeout (not judged): %s" % brief(h["reset"]))
         for x in r["rejects"]:
@@ -133,7 +134,9 @@ def tlc_once(ctx, path):
 
 
 def validate(ctx, trace, shard, lock):
-    """thread-safe variant of ctx.validate: returns per-shard bookkeeping; resumes after each rejected execution"""
+    """thread-safe counterpart of ctx.validate for the flagging trace spec: one TLC run judges every execution of
+    the file (an event that is not a step of Out is flagged and the rest of that execution skipped); a second run
+    on the identical file must reproduce the flags; a run TLC cannot complete is UNDECIDED, never a violation"""
     with open(trace) as f:
         lines = [x for x in f.read().splitlines() if x.strip()]
     res = {"nexec": 0, "events": 0, "rejects": [], "hangs": [], "samples": [], "distinct": set(),
